@@ -410,6 +410,29 @@ P("seed-C19-4", ["C19"], "seeded/C19-4/patch.diff")
 P("seed-C20-3", ["C20"], "seeded/C20-3/patch.diff")
 P("seed-C20-4", ["C20"], "seeded/C20-4/patch.diff")
 
+# ------------------------------------------------------------------ backward party scan (R-C17-4 / R-C02-5 / R-C01-10)
+_PL = ('                plaintiff = "".join(\n                    str(w) for w in words[max(index - 2, 0) : index]\n                ).lstrip("( ")\n'
+       '                citation.metadata.plaintiff = plaintiff.rstrip("( ")\n                # the full span starts where the plaintiff starts\n'
+       '                offset += len(plaintiff)\n')
+P("seed-C17-2", ["C17"], "seeded/C17-2/patch.diff", rule="R-C17-4")
+P("seed-C17-2-as-C02", ["C02"], "seeded/C17-2/patch.diff", rule="R-C02-5")
+P("seed-C01-4", ["C01"], "seeded/C01-4/patch.diff", rule="R-C01-10")
+B("backscan-stripped-plus-one", ["C17", "C02", "C01"], "helpers.py", _PL,
+  '                citation.metadata.plaintiff = "".join(\n                    str(w) for w in words[max(index - 2, 0) : index]\n                ).strip("( ")\n'
+  '                offset += len(citation.metadata.plaintiff) + 1\n')
+B("backscan-forgets-stop-word", ["C17", "C02"], "helpers.py", "                offset -= len(word)\n", "                offset -= 1\n")
+B("backscan-skips-comma-width", ["C17", "C02"], "helpers.py", "        word = words[index]\n        offset += len(word)\n        if word == \",\":\n            # Skip it\n            continue\n",
+  "        word = words[index]\n        if word == \",\":\n            # Skip it\n            continue\n        offset += len(word)\n")
+B("backscan-plaintiff-from-wider-run", ["C17"], "helpers.py", _PL,
+  '                plaintiff = "".join(\n                    str(w) for w in words[max(index - 2, 0) : index]\n                ).lstrip("( ")\n'
+  '                citation.metadata.plaintiff = "".join(str(w) for w in words[max(index - 4, 0) : index]).strip("( ")\n'
+  '                offset += len(plaintiff)\n')
+N("backscan-benign-map-join", ["C17", "C02", "C01"], "helpers.py", _PL,
+  '                raw = "".join(map(str, words[max(index - 2, 0) : index]))\n                kept = raw.lstrip("( ")\n'
+  '                citation.metadata.plaintiff = kept.rstrip("( ")\n                offset += len(kept)\n')
+N("backscan-benign-strip-after-lstrip", ["C17", "C02", "C01"], "helpers.py", '                citation.metadata.plaintiff = plaintiff.rstrip("( ")\n',
+  '                citation.metadata.plaintiff = plaintiff.strip("( ")\n')
+
 # ------------------------------------------------------------------ generated whole-package benign rewrites (every property)
 for _g in ("reformat", "logging", "rename-locals"):
     VARIANTS.append({"id": f"gen-{_g}", "kind": "benign", "props": ["*"], "gen": _g})
